@@ -22,7 +22,7 @@ OBLIGATIONS = (["NiftyVerif.C03.ptw_hval_eq_val"] + ["NiftyVerif.C03.ptw_hasDeri
                   "NiftyVerif.C03.ptw_table_hasDerivAt", "NiftyVerif.C03.lin_val", "NiftyVerif.C03.lin_hasDerivAt",
                   "NiftyVerif.C03.metric_carried", "NiftyVerif.C03.metric_gauss", "NiftyVerif.C03.metric_sum",
                   "NiftyVerif.C03.metric_sum_none", "NiftyVerif.C03.metric_scale", "NiftyVerif.C03.jac_adjoint",
-                  "NiftyVerif.C03.ptw_table_hasDerivAt_c", "NiftyVerif.C03.lin_hasDerivAt_c"])
+                  "NiftyVerif.C03.ptw_table_hasDerivAt_c", "NiftyVerif.C03.lin_hasDerivAt_c", "NiftyVerif.C03.jac_adjoint_c"])
 RULE = ("(1) T2: every ptw_dict entry on a float grid over its valid range incl. kinks (value, helper value, derivative) "
         "vs the regenerated Lean definitions; (2) generated operator trees (<=16 nodes; var/add/sub/mul/scale/addc/mulc/"
         "ptw/lin/sum/vdot/getKey/putKey/chain/sqnorm/quad/gauss) over single and multi-domains, dyadic inputs, "
